@@ -87,7 +87,20 @@ class OdeModel:
                         if b is not t and isinstance(b, ast.Name) and b.id in ps:
                             return None
             return f
-        self.flow = Flow(self.func, FILE, proc_resolver=_resolver, resolver=_pure_resolver)
+        # ... and a helper METHOD with loops whose call is a whole statement (`jac = self._build(n, entries)`) is replaced by its
+        # statements (parameters renamed to the arguments, locals made unique): an extracted block is still this code
+        import copy as _copy
+        from .normalize import inline_stmt_calls
+
+        def _stmt_resolver(call, _pkg=pkg):
+            f_ = call.func
+            if isinstance(f_, ast.Attribute) and isinstance(f_.value, ast.Name) and f_.value.id in ("self", "cls") and f_.attr not in _ANCHORS:
+                _, callee = _pkg.resolve("TemplateLoader", f_.attr)
+                if callee is not None and callee is not self.func:
+                    return callee, f_.value
+            return None
+        func = inline_stmt_calls(_copy.deepcopy(self.func), _stmt_resolver)
+        self.flow = Flow(func, FILE, proc_resolver=_resolver, resolver=_pure_resolver)
         fl = self.flow
         params = [a.arg for a in self.func.args.args if a.arg != "self"]
         if not params:
